@@ -26,15 +26,21 @@ type core struct {
 	closed  int
 	// park, when set, is called before a Write is processed (interleaving seam).
 	park func(kind string, n int)
+	// limit, when set with park, is the output size beyond which the render is considered
+	// runaway: the task then parks under kind "runaway" and is never released.
+	limit int
 }
 
 func (c *core) Write(p []byte) (int, error) {
 	if c.park != nil {
+		if c.limit > 0 && len(c.got) > c.limit {
+			c.park("runaway", len(c.got))
+		}
 		c.park("write", len(p))
 	}
 	c.calls++
-	if len(c.got) > 48<<20 {
-		panic("sim: runaway output (more than 48 MB written by one render)")
+	if len(c.got) > 16<<20 {
+		panic("sim: runaway output (more than 16 MB written by one render)")
 	}
 	off := len(c.got)
 	c.starts = append(c.starts, off)
